@@ -222,6 +222,9 @@ Record fire_out := {
   o_contribs : option (list contrib)                (* SubmitSyncCommitteeContributions payload, sorted *)
 }.
 
+(* the payload of an optional submission, [] when nothing was submitted *)
+Definition opt_list {A} (o : option (list A)) : list A := match o with Some l => l | None => [] end.
+
 Definition no_fire : fire_out :=
   {| o_sel_call := None; o_msg_job := None; o_root_call := None; o_submitted := None;
      o_agg_job := None; o_contribs := None |}.
